@@ -214,11 +214,10 @@ func ParseExpandedNodeID(s string, ns []string) (*ExpandedNodeID, error) {
 		return NewExpandedNodeID(NewStringNodeID(nsid, idval[2:]), nsu, 0), nil
 
 	case strings.HasPrefix(idval, "g="):
-		n := NewGUIDNodeID(nsid, idval[2:])
-		if n == nil || n.StringID() == "" {
+		if NewGUID(idval[2:]) == nil {
 			return nil, errors.Errorf("invalid guid node id: %s", s)
 		}
-		return NewExpandedNodeID(n, nsu, 0), nil
+		return NewExpandedNodeID(NewGUIDNodeID(nsid, idval[2:]), nsu, 0), nil
 
 	case strings.HasPrefix(idval, "b="):
 		b, err := base64.StdEncoding.DecodeString(idval[2:])
